@@ -29,15 +29,21 @@ package dnsdata
 //@ ensures[kept] forall(j, 0, 16 - len(*mask), result[j] == b16[j])
 //@ loop 0 invariant[done] 0 <= idx && idx <= len(*mask) && offset == 16 - len(*mask) && forall(j, 0, idx, result[j + offset] == band(base[j + offset], (*mask)[j]))
 //@ loop 0 invariant[rest] forall(j, 0, 16, (j < offset || j >= idx + offset) ==> result[j] == base[j])
+//@ before assign#3 assert[cur] result[i + offset] == base[i + offset] && val == (*mask)[i] && i == idx
+//@ after assign#3 assert[step] forall(j, 0, i + 1, result[j + offset] == band(base[j + offset], (*mask)[j]))
+//@ after assign#3 assert[step-rest] forall(j, 0, 16, (j < offset || j >= i + 1 + offset) ==> result[j] == base[j])
 //@ func ipFillUnmasked
 //@ flag skip frame
 //@ requires ipaddr != nil && mask != nil && (len(*mask) == 4 || len(*mask) == 16)
 //@ after copy#0 let base = result
 //@ ghostret b16 seq = base
-//@ ensures[filled] forall(j, 0, len(*mask), result[j + 16 - len(*mask)] == bor(b16[j + 16 - len(*mask)], bxor((*mask)[j], 255)))
+//@ ensures[filled] forall(j, 0, len(*mask), result[j + 16 - len(*mask)] == bor(b16[j + 16 - len(*mask)], 255 - (*mask)[j]))
 //@ ensures[kept] forall(j, 0, 16 - len(*mask), result[j] == b16[j])
-//@ loop 0 invariant[done] 0 <= idx && idx <= len(*mask) && offset == 16 - len(*mask) && forall(j, 0, idx, result[j + offset] == bor(base[j + offset], bxor((*mask)[j], 255)))
+//@ loop 0 invariant[done] 0 <= idx && idx <= len(*mask) && offset == 16 - len(*mask) && forall(j, 0, idx, result[j + offset] == bor(base[j + offset], 255 - (*mask)[j]))
 //@ loop 0 invariant[rest] forall(j, 0, 16, (j < offset || j >= idx + offset) ==> result[j] == base[j])
+//@ before assign#3 assert[cur] result[offset + i] == base[offset + i] && val == (*mask)[i] && i == idx
+//@ after assign#3 assert[step] forall(j, 0, i + 1, result[j + offset] == bor(base[j + offset], 255 - (*mask)[j]))
+//@ after assign#3 assert[step-rest] forall(j, 0, 16, (j < offset || j >= i + 1 + offset) ==> result[j] == base[j])
 
 //@ func copyLocID
 //@ ensures[ok] err == nil <==> (locID != nil && len(locID) == 2)
